@@ -162,7 +162,7 @@ def hyp_shard(rec, shard):
 
 
 def main(ctx):
-    n = 2400 if ctx.tier == 'quick' else 100000
+    n = 8000 if ctx.tier == 'quick' else 100000
     w = 8 if ctx.tier == 'quick' else 16
     ctx.pmap('hyp_shard', [(k, n // w) for k in range(w)])
     # single-track and degenerate shapes, enumerated
